@@ -157,8 +157,24 @@ def make(targets, timeout=3000):
     return run(["make", "-j16"] + targets, cwd=COQ, timeout=timeout)
 
 
-def coqchk(targets, timeout=2400):
-    """Independent re-check (coqchk) of the compiled closure of the proof files.
+def snapshot_vo(prop):
+    """Copy every compiled .vo of the Coq tree into build/chk/<prop>/ (called under the build lock:
+    31 MB, well under a second) so that coqchk can re-check them without holding the lock."""
+    import shutil
+    dst = os.path.join(BUILD, "chk", prop)
+    shutil.rmtree(dst, ignore_errors=True)
+    for root, _, files in os.walk(COQ):
+        for f in files:
+            if f.endswith(".vo"):
+                rel = os.path.relpath(root, COQ)
+                os.makedirs(os.path.join(dst, rel), exist_ok=True)
+                shutil.copy2(os.path.join(root, f), os.path.join(dst, rel, f))
+    return dst
+
+
+def coqchk(targets, snap, timeout=2400):
+    """Independent re-check (coqchk) of the compiled closure of the proof files, on the snapshot
+    `snap` of the .vo files taken under the build lock.
     Returns (ok, axioms, text).  coqchk lists the axioms of every library it
     loads, used by the theorems or not; they are recorded, not judged (the
     per-theorem Print Assumptions allow-list is what judges)."""
@@ -167,7 +183,11 @@ def coqchk(targets, timeout=2400):
         d, f = os.path.split(t[:-3] if t.endswith(".vo") else t)
         lp = {"lib": "Verif", "gen": "VerifGen"}.get(d, d)
         mods.append(lp + "." + f)
-    rc, o, dt = run(["coqchk", "-silent", "-o"] + coq_flags() + mods, cwd=COQ, timeout=timeout)
+    flags = []
+    fl = coq_flags()
+    for i in range(0, len(fl), 3):
+        flags += [fl[i], os.path.join(snap, os.path.relpath(fl[i + 1], COQ)), fl[i + 2]]
+    rc, o, dt = run(["coqchk", "-silent", "-o"] + flags + mods, cwd=snap, timeout=timeout)
     if rc == 124 or "TIMEOUT" in o[-200:]:
         return None, [], "coqchk timed out after %ds" % timeout
     axioms, bad = [], []
@@ -347,9 +367,16 @@ def main(argv):
         make_ok = rc == 0
         if not make_ok:
             problems.append("coq build failed: " + o.strip()[-1500:])
-        chk = None
+        snap = None
         if make_ok and tier == "thorough" and not os.environ.get("VERIF_NO_COQCHK"):
-            chk = coqchk(cfg["coq_targets"])
+            snap = snapshot_vo(prop)
+    chk = None
+    if snap:
+        chk = coqchk(cfg["coq_targets"], snap)
+        import shutil
+        shutil.rmtree(snap, ignore_errors=True)
+    if chk is not None:
+        if True:
             if chk[0] is False:
                 problems.append("coqchk rejects the compiled proofs: " + chk[2])
             elif chk[0] is None:
